@@ -336,6 +336,11 @@ func (g *dgen) extend(o *spec.Type) bool {
 		if u.IsResult || u.IsError || u.Attr.Type.Kind != spec.Object || len(u.Attr.Type.Fields) == 0 {
 			continue
 		}
+		if u.Attr.Type.Reference != "" {
+			// (a type extending a type that refers to a third one sees the third one's attributes too: an attribute
+			// declared here under one of THEIR names silently takes over their validations - no chains)
+			continue
+		}
 		clash := false
 		for _, f := range u.Attr.Type.Fields {
 			if o.Field(f.Name) != nil || f.Sec != "" {
@@ -375,7 +380,7 @@ func (g *dgen) reference(o *spec.Type) bool {
 	}
 	var bases []*spec.UserType
 	for _, u := range g.d.Types {
-		if u.IsResult || u.IsError || u.Attr.Type.Kind != spec.Object {
+		if u.IsResult || u.IsError || u.Attr.Type.Kind != spec.Object || u.Attr.Type.Reference != "" || u.Attr.Type.Extend != "" {
 			continue
 		}
 		for _, f := range u.Attr.Type.Fields {
